@@ -239,16 +239,25 @@ theorem matSet_spec {s m : State} {k : Key} {v : Rat} (h : matSet s k v = .ok m)
 
 /-- `Q` holds of fresh objects, does not look at the `_ancilla`/`_constraints` attributes, and is kept by
 `__setitem__` on keys satisfying `G` -/
-structure Closed (fx : Fix) (Q : State → Prop) (G : Key → Prop) : Prop where
-  init : ∀ κ, Q (init κ)
+structure Closed (fx : Fix) (Q : State → Prop) (G : Key → Prop) (K : Kind → Prop := fun _ => True) : Prop where
+  init : ∀ κ, K κ → Q (init κ)
+  kindOK : ∀ s, Q s → K s.kind
+  remap : ∀ s, Q s → Q (remap s)
   field : ∀ s a c, Q s → Q { s with ancilla := a, constraints := c }
   set : ∀ s k v s', Q s → G k → setitem fx s k v = .ok s' → Q s'
   terms : ∀ s, Q s → ∀ kv ∈ s.terms, G kv.1
   nil : G []
   app : ∀ k k', G k → G k' → G (k ++ k')
 
-/-- the keys an edit supplies satisfy `G` -/
-def OpOK (G : Key → Prop) (s : State) : Op → Prop
+/-- the keys of the operand of a copying operator satisfy `G` -/
+def ArithOK (G : Key → Prop) : Arith → Prop
+  | .addD q => ∀ kv ∈ q, G kv.1
+  | .subD q => ∀ kv ∈ q, G kv.1
+  | .mulD q => ∀ kv ∈ q, G kv.1
+  | _ => True
+
+/-- the keys an edit supplies satisfy `G` (and the class a constructor makes satisfies `K`) -/
+def OpOK (G : Key → Prop) (K : Kind → Prop) (s : State) : Op → Prop
   | .setitem k _ => G k
   | .augitem k _ _ => G k
   | .iaddD q => ∀ kv ∈ q, G kv.1
@@ -256,10 +265,13 @@ def OpOK (G : Key → Prop) (s : State) : Op → Prop
   | .imulD q => ∀ kv ∈ q, G kv.1
   | .update q => ∀ kv ∈ q, G kv.1
   | .cons r P lam lt lo hi => ∀ kv ∈ (consDelta s.kind s.ancilla r P lam lt (lo, hi)).2.2, G kv.1
+  | .bin a => ArithOK G a
+  | .cast κ => K κ
+  | .updateM _ q _ _ => ∀ kv ∈ q, G kv.1
   | _ => True
 
 section principle
-variable {fx : Fix} {Q : State → Prop} {G : Key → Prop} (C : Closed fx Q G)
+variable {fx : Fix} {Q : State → Prop} {G : Key → Prop} {K : Kind → Prop} (C : Closed fx Q G K)
 include C
 
 theorem augitem_pres {s s' : State} {k : Key} {a : Aug} {d : Rat} (hs : Q s) (hk : G k)
@@ -290,7 +302,7 @@ theorem isubLoop_pres {s : State} {q : Poly} (hq : ∀ kv ∈ q, G kv.1) (hs : Q
 
 theorem copy_pres {s : State} (hs : Q s) : Q (copy fx s).1 := by
   unfold copy
-  exact C.field _ _ _ (iaddLoop_pres C (C.terms s hs) (C.init s.kind))
+  exact C.field _ _ _ (iaddLoop_pres C (C.terms s hs) (C.init s.kind (C.kindOK s hs)))
 
 theorem refresh_pres {s : State} (hs : Q s) : Q (refresh fx s).1 := by
   unfold refresh
@@ -309,15 +321,15 @@ theorem products_ok {items q : Poly} (hi : ∀ kv ∈ items, G kv.1) (hq : ∀ k
   obtain ⟨a, ha, b, hb, rfl⟩ := h
   exact C.app _ _ (hi a ha) (hq b hb)
 
-theorem clearForMul_pres (s : State) : Q (clearForMul fx s) := by
+theorem clearForMul_pres {s : State} (hs : Q s) : Q (clearForMul fx s) := by
   unfold clearForMul
   split
-  · exact C.field _ _ _ (C.init s.kind)
-  · exact C.init s.kind
+  · exact C.field _ _ _ (C.init s.kind (C.kindOK s hs))
+  · exact C.init s.kind (C.kindOK s hs)
 
 theorem imulD_pres {s : State} {q : Poly} (hq : ∀ kv ∈ q, G kv.1) (hs : Q s) : Q (imulD fx s q).1 := by
   unfold imulD
-  exact iaddLoop_pres C (products_ok C (C.terms s hs) hq) (clearForMul_pres C s)
+  exact iaddLoop_pres C (products_ok C (C.terms s hs) hq) (clearForMul_pres C hs)
 
 theorem scaleLoop_pres {s : State} {a : Aug} {c : Rat} (hs : Q s) : Q (scaleLoop fx s a c).1 := by
   unfold scaleLoop
@@ -362,7 +374,79 @@ theorem ofExcept_pres {s : State} {r : Except Err State} (hs : Q s) (h : ∀ s',
   | error e => exact hs
 
 /-- **every edit keeps `Q`** -/
-theorem step_pres {s : State} (op : Op) (hop : OpOK G s op) (hs : Q s) : Q (step fx s op).1 := by
+theorem rebuildSet_pres {s : State} (g : Rat → Rat) (b : Bool) (hs : Q s) : Q (rebuildSet fx s g b).1 := by
+  unfold rebuildSet
+  have h1 : Q (loop (fun st kv => setitem fx st kv.1 (g kv.2)) (init s.kind) s.terms).1 :=
+    loop_pres s.terms (fun _ kv _ h1 h2 h3 => C.set _ _ _ _ h1 (C.terms s hs kv h2) h3)
+      (C.init s.kind (C.kindOK s hs))
+  cases hc : loop (fun st kv => setitem fx st kv.1 (g kv.2)) (init s.kind) s.terms with
+  | mk t e =>
+    rw [hc] at h1
+    cases e with
+    | none => exact C.field _ _ _ h1
+    | some e => exact hs
+
+theorem cast_pres {s : State} (κ : Kind) (hκ : K κ) (hs : Q s) : Q (cast fx s κ).1 := by
+  unfold cast
+  have h1 : Q (iaddLoop fx (init κ) s.terms).1 := iaddLoop_pres C (C.terms s hs) (C.init κ hκ)
+  cases hc : iaddLoop fx (init κ) s.terms with
+  | mk t e =>
+    rw [hc] at h1
+    cases e with
+    | none =>
+      simp only
+      split
+      · exact C.field _ _ _ h1
+      · exact h1
+    | some e => exact hs
+
+theorem stepA_pres {s : State} (a : Arith) (ha : ArithOK G a) (hs : Q s) : Q (stepA fx s a).1 := by
+  cases a with
+  | addC c => exact ofExcept_pres hs (fun s' h => augitem_pres C hs C.nil h)
+  | subC c => exact ofExcept_pres hs (fun s' h => augitem_pres C hs C.nil h)
+  | mulC c => exact scaleLoop_pres C hs
+  | divC c => exact scaleLoop_pres C hs
+  | pow e => exact ipow_pres C hs
+  | addD q => exact iaddLoop_pres C ha hs
+  | subD q => exact isubLoop_pres C ha hs
+  | mulD q => exact imulD_pres C ha hs
+
+theorem copyThen_pres {s : State} {f : State → State × Option Err} (hf : ∀ c, Q c → Q (f c).1) (hs : Q s) :
+    Q (copyThen fx s f).1 := by
+  unfold copyThen
+  have h1 := copy_pres C hs
+  cases hc : copy fx s with
+  | mk c e =>
+    rw [hc] at h1
+    cases e with
+    | none =>
+      simp only
+      have h2 := hf c h1
+      cases hf2 : f c with
+      | mk r e2 =>
+        rw [hf2] at h2
+        cases e2 with
+        | none => exact h2
+        | some e2 => exact hs
+    | some e => exact hs
+
+theorem updateM_pres {s : State} (κg : Kind) (q : Poly) (cs : List (Rel × Poly)) (a : Nat)
+    (hq : ∀ kv ∈ q, G kv.1) (hs : Q s) : Q (updateM fx s κg q cs a).1 := by
+  unfold updateM
+  have h1 : Q (loop (fun st kv => setitem fx st kv.1 kv.2) s q).1 :=
+    loop_pres q (fun _ kv _ h1 h2 h3 => C.set _ _ _ _ h1 (hq kv h2) h3) hs
+  cases hc : loop (fun st kv => setitem fx st kv.1 kv.2) s q with
+  | mk t e =>
+    rw [hc] at h1
+    cases e with
+    | none =>
+      simp only
+      split
+      · exact C.field _ _ _ h1
+      · exact h1
+    | some e => exact h1
+
+theorem step_pres {s : State} (op : Op) (hop : OpOK G K s op) (hs : Q s) : Q (step fx s op).1 := by
   cases op with
   | setitem k v => exact ofExcept_pres hs (fun s' h => C.set _ _ _ _ hs hop h)
   | augitem k a d => exact ofExcept_pres hs (fun s' h => augitem_pres C hs hop h)
@@ -375,8 +459,28 @@ theorem step_pres {s : State} (op : Op) (hop : OpOK G s op) (hs : Q s) : Q (step
   | idivC c => exact scaleLoop_pres C hs
   | ipow e => exact ipow_pres C hs
   | update q => exact loop_pres q (fun _ kv _ h1 h2 h3 => C.set _ _ _ _ h1 (hop kv h2) h3) hs
-  | clear => exact C.init s.kind
+  | clear => exact C.init s.kind (C.kindOK s hs)
   | refresh => exact refresh_pres C hs
+  | round nd => exact rebuildSet_pres C _ _ hs
+  | subs => exact rebuildSet_pres C _ _ hs
+  | cast κ => exact cast_pres C κ hop hs
+  | bin a => exact copyThen_pres C (fun c hc => stepA_pres C a hop hc) hs
+  | rsubC c =>
+    simp only [step]
+    have h1 : Q (copyThen fx s (fun d => stepA fx d (.mulC (-1)))).1 :=
+      copyThen_pres C (fun c hc => stepA_pres C (.mulC (-1)) trivial hc) hs
+    cases hc : copyThen fx s (fun d => stepA fx d (.mulC (-1))) with
+    | mk m e =>
+      rw [hc] at h1
+      cases e with
+      | none => exact copyThen_pres C (fun c hc => stepA_pres C (.addC _) trivial hc) h1
+      | some e => exact h1
+  | updateM κg q cs a => exact updateM_pres C κg q cs a hop hs
+  | remap =>
+    simp only [step]
+    split
+    · exact C.remap s hs
+    · exact hs
   | copy =>
     simp only [step]
     have h1 := copy_pres C hs
@@ -507,18 +611,61 @@ theorem setitem_I2 {fx : Fix} {s s' : State} {k : Key} {v : Rat} (h : setitem fx
 /-- the part of the invariant that holds of the code as it is -/
 def PInv (s : State) : Prop := I1 s ∧ I2 s
 
+theorem mapDom_remap (s : State) : mapDom (remap s) = mapDom s := by
+  simp [mapDom, remap, List.map_map, Function.comp_def]
+
+/-- `set_mapping` with a permutation of `0..n-1` keeps I2 (`_next_label` is untouched and still `n`) -/
+theorem remap_I2 {s : State} (h : I2 s) : I2 (remap s) := by
+  obtain ⟨_, _, a3, a4, a5, a6⟩ := h
+  have hlt : ∀ p ∈ s.mapping, p.2 < s.nextLabel := fun p hp => (a5 p.2).mp (List.mem_map_of_mem hp)
+  refine ⟨?_, ?_, ?_, ?_, ?_, ?_⟩
+  · intro p hp
+    simp only [remap, List.mem_map] at hp ⊢
+    obtain ⟨q, hq, rfl⟩ := hp
+    exact ⟨q, hq, rfl⟩
+  · intro p hp
+    simp only [remap, List.mem_map] at hp ⊢
+    obtain ⟨q, hq, rfl⟩ := hp
+    exact ⟨q, hq, rfl⟩
+  · have : (remap s).mapping.map Prod.fst = s.mapping.map Prod.fst := by
+      simp [remap, List.map_map, Function.comp_def]
+    rw [this]; exact a3
+  · have : (remap s).mapping.map Prod.snd = (s.mapping.map Prod.snd).map (fun i => s.nextLabel - 1 - i) := by
+      simp [remap, List.map_map, Function.comp_def]
+    rw [this]
+    refine List.Nodup.map_on (fun x hx y hy hxy => ?_) a4
+    have h1 := (a5 x).mp hx
+    have h2 := (a5 y).mp hy
+    omega
+  · intro i
+    have : (remap s).mapping.map Prod.snd = (s.mapping.map Prod.snd).map (fun i => s.nextLabel - 1 - i) := by
+      simp [remap, List.map_map, Function.comp_def]
+    rw [this, List.mem_map]
+    show _ ↔ i < s.nextLabel
+    constructor
+    · rintro ⟨j, hj, rfl⟩
+      have := (a5 j).mp hj
+      omega
+    · intro hi
+      refine ⟨s.nextLabel - 1 - i, (a5 _).mpr (by omega), by omega⟩
+  · simp [remap, a6]
+
 theorem closed_PInv (fx : Fix) : Closed fx PInv (fun _ => True) where
-  init κ := by
+  init κ _ := by
     refine ⟨⟨by simp [init], by simp [init], by simp [init], by simp [init]⟩,
       ⟨by simp [init], by simp [init], by simp [init], by simp [init], by simp [init], by simp [init]⟩⟩
+  kindOK _ _ := trivial
+  remap s h := ⟨I1_congr rfl rfl rfl rfl h.1, remap_I2 h.2⟩
   field s a c h := ⟨I1_congr rfl rfl rfl rfl h.1, I2_congr rfl rfl rfl h.2⟩
   set s k v s' h _ hset := ⟨setitem_I1 hset h.1, setitem_I2 hset h.2⟩
   terms _ _ _ _ := trivial
   nil := trivial
   app _ _ _ _ := trivial
 
-theorem opOK_true (s : State) (op : Op) : OpOK (fun _ => True) s op := by
-  cases op <;> simp [OpOK]
+theorem opOK_true (s : State) (op : Op) : OpOK (fun _ => True) (fun _ => True) s op := by
+  cases op with
+  | bin a => cases a <;> simp [OpOK, ArithOK]
+  | _ => simp [OpOK]
 
 /-! ## I3 for the repaired `BO.__setitem__` -/
 
@@ -618,7 +765,12 @@ theorem setitem_I3 {fx : Fix} (hfx : fx.d1 = true) {s s' : State} {k : Key} {v :
 def QInv (s : State) : Prop := I1 s ∧ I2 s ∧ I3 s
 
 theorem closed_QInv (fx : Fix) (hfx : fx.d1 = true) : Closed fx QInv (fun _ => True) where
-  init κ := ⟨(closed_PInv fx).init κ |>.1, (closed_PInv fx).init κ |>.2, by intro _; simp [init, mapDom]⟩
+  init κ _ := ⟨(closed_PInv fx).init κ trivial |>.1, (closed_PInv fx).init κ trivial |>.2,
+    by intro _; simp [init, mapDom]⟩
+  kindOK _ _ := trivial
+  remap s h := ⟨I1_congr rfl rfl rfl rfl h.1, remap_I2 h.2.1, fun hb => by
+    have := h.2.2 hb
+    rw [mapDom_remap]; exact this⟩
   field s a c h := ⟨I1_congr rfl rfl rfl rfl h.1, I2_congr rfl rfl rfl h.2.1, h.2.2⟩
   set s k v s' h _ hset :=
     ⟨setitem_I1 hset h.1, setitem_I2 hset h.2.1, setitem_I3 hfx hset h.1 h.2.1 h.2.2⟩
@@ -628,10 +780,10 @@ theorem closed_QInv (fx : Fix) (hfx : fx.d1 = true) : Closed fx QInv (fun _ => T
 
 /-! ## histories -/
 
-theorem run_pres {fx : Fix} {Q : State → Prop} {G : Key → Prop} (C : Closed fx Q G) (κ : Kind)
-    (ops : List Op) (hops : ∀ op ∈ ops, ∀ s, OpOK G s op) : Q (run fx κ ops) := by
+theorem run_pres {fx : Fix} {Q : State → Prop} {G : Key → Prop} {K : Kind → Prop} (C : Closed fx Q G K) (κ : Kind)
+    (ops : List Op) (hops : ∀ op ∈ ops, ∀ s, OpOK G K s op) (hκ : K κ := by trivial) : Q (run fx κ ops) := by
   unfold run
-  suffices h : ∀ s, Q s → Q (ops.foldl (fun s o => (step fx s o).1) s) from h _ (C.init κ)
+  suffices h : ∀ s, Q s → Q (ops.foldl (fun s o => (step fx s o).1) s) from h _ (C.init κ hκ)
   induction ops with
   | nil => exact fun s h => h
   | cons o r ih =>
@@ -675,7 +827,9 @@ theorem matSet_vars_sub {s m : State} {k : Key} {v : Rat} (h : matSet s k v = .o
     · exact Or.inr (mem_squash hk h)
 
 theorem closed_AncB (fx : Fix) (a : Nat) : Closed fx (AncB a) (KOK a) where
-  init κ := by simp [AncB, KOK, init, mapDom]
+  init κ _ := by simp [AncB, KOK, init, mapDom]
+  kindOK _ _ := trivial
+  remap s h := ⟨h.1, h.2.1, by rw [mapDom_remap]; exact h.2.2⟩
   field s a' c h := h
   set s k v s' h hk hset := by
     obtain ⟨m, hm, rfl⟩ := setitem_ok hset
@@ -784,21 +938,125 @@ theorem ipow_anc {fx : Fix} (hfx : fx.d2 = true) (s : State) (e : Int) :
         | some er => rfl
 
 /-- the edits that multiply by a dict (`*=` dict, `**=`): the ones that run `clear()` inside -/
+def Arith.isDictMul : Arith → Bool
+  | .pow _ => true
+  | .mulD _ => true
+  | _ => false
+
+/-- the edits that multiply by a dict (`*=` dict, `**=`, and their copying forms): they run `clear()` inside -/
 def Op.isDictMul : Op → Bool
   | .imulD _ => true
   | .ipow _ => true
+  | .bin a => a.isDictMul
   | _ => false
 
-/-- the ancilla counter after an edit: reset by `clear`, advanced by a constraint, otherwise unchanged
-(for `*=` by a dict and `**=` only with the D2 repair) -/
-def ancAfter (s : State) : Op → Nat
+def Op.isRound : Op → Bool
+  | .round _ => true
+  | _ => false
+
+/-- the repairs an edit relies on for the ancilla counter are switched on (8d2eba8 for dict products, 0d891c4
+for `round`) -/
+def FixOK (fx : Fix) (op : Op) : Prop :=
+  (fx.d2 = true ∨ op.isDictMul = false) ∧ (fx.dr = true ∨ op.isRound = false)
+
+theorem fixOK_fixed (op : Op) : FixOK Fix.fixed op := ⟨Or.inl rfl, Or.inl rfl⟩
+
+/-- the ancilla counter after an edit: reset by `clear`, advanced by a constraint, raised to the argument's by
+`update(model of the own class)`, `0` for a model made by the constructor of another class, otherwise unchanged -/
+def ancAfter (fx : Fix) (s : State) : Op → Nat
   | .clear => 0
   | .cons r P lam lt lo hi =>
     if hasCons s.kind then (consDelta s.kind s.ancilla r P lam lt (lo, hi)).2.1 else s.ancilla
+  | .cast κ =>
+    match (iaddLoop fx (init κ) s.terms).2 with
+    | none => if κ == s.kind then s.ancilla else 0
+    | some _ => s.ancilla
+  | .updateM κg _ _ a =>
+    if hasCons s.kind && κg == s.kind then (if fx.d10 then max s.ancilla a else s.ancilla) else s.ancilla
   | _ => s.ancilla
 
-theorem step_anc {fx : Fix} (s : State) (op : Op) (hmul : fx.d2 = true ∨ op.isDictMul = false) :
-    (step fx s op).1.ancilla = ancAfter s op := by
+theorem stepA_anc {fx : Fix} (s : State) (a : Arith) (hmul : fx.d2 = true ∨ a.isDictMul = false) :
+    (stepA fx s a).1.ancilla = s.ancilla := by
+  cases a with
+  | addC c =>
+    simp only [stepA]; cases h : augitem fx s [] .add c with
+    | ok s' => exact augitem_anc h
+    | error e => rfl
+  | subC c =>
+    simp only [stepA]; cases h : augitem fx s [] .sub c with
+    | ok s' => exact augitem_anc h
+    | error e => rfl
+  | mulC c => exact loop_anc (fun _ _ _ h => augitem_anc h) _ s
+  | divC c => exact loop_anc (fun _ _ _ h => augitem_anc h) _ s
+  | pow e =>
+    rcases hmul with h | h
+    · exact ipow_anc h s e
+    · simp [Arith.isDictMul] at h
+  | addD q => exact iaddLoop_anc fx s q
+  | subD q => exact isubLoop_anc fx s q
+  | mulD q =>
+    rcases hmul with h | h
+    · exact imulD_anc h s q
+    · simp [Arith.isDictMul] at h
+
+theorem copyThen_anc {fx : Fix} (s : State) {f : State → State × Option Err}
+    (hf : ∀ c, (f c).1.ancilla = c.ancilla) : (copyThen fx s f).1.ancilla = s.ancilla := by
+  unfold copyThen
+  have h1 := copy_anc fx s
+  cases hc : copy fx s with
+  | mk c e =>
+    rw [hc] at h1
+    cases e with
+    | none =>
+      simp only
+      have h2 := hf c
+      cases hf2 : f c with
+      | mk r e2 =>
+        rw [hf2] at h2
+        cases e2 with
+        | none => exact h2.trans h1
+        | some e2 => rfl
+    | some e => rfl
+
+theorem rebuildSet_anc (fx : Fix) (s : State) (g : Rat → Rat) : (rebuildSet fx s g true).1.ancilla = s.ancilla := by
+  unfold rebuildSet
+  cases loop (fun st kv => setitem fx st kv.1 (g kv.2)) (init s.kind) s.terms with
+  | mk t e => cases e <;> rfl
+
+theorem squash_total {κ : Kind} (h : κ.isDeg2 = false) (k : Key) : ∃ k', squash κ k = .ok k' := by
+  unfold squash
+  cases κ <;> simp_all [Kind.isDeg2]
+
+theorem setitem_total {fx : Fix} {s : State} (h : s.kind.isDeg2 = false) (k : Key) (v : Rat) :
+    ∃ s', setitem fx s k v = .ok s' := by
+  obtain ⟨k', hk⟩ := squash_total h k
+  simp [setitem, matSet, hk, bind, Except.bind, pure, Except.pure]
+
+theorem setitem_kind' {fx : Fix} {s s' : State} {k : Key} {v : Rat} (h : setitem fx s k v = .ok s') :
+    s'.kind = s.kind := by
+  obtain ⟨m, hm, rfl⟩ := setitem_ok h
+  obtain ⟨_, _, e, _⟩ := matSet_spec hm
+  split
+  · exact (regLabels_fields fx k m).1.trans e
+  · exact e
+
+theorem loop_setitem_total {fx : Fix} (q : Poly) : ∀ s : State, s.kind.isDeg2 = false →
+    (loop (fun st kv => setitem fx st kv.1 kv.2) s q).2 = none := by
+  induction q with
+  | nil => intro s _; rfl
+  | cons a r ih =>
+    intro s hs
+    obtain ⟨s', h⟩ := setitem_total (fx := fx) hs a.1 a.2
+    unfold loop
+    simp only [h]
+    exact ih s' (by rw [setitem_kind' h]; exact hs)
+
+theorem hasCons_not_deg2 {κ : Kind} (h : hasCons κ = true) : κ.isDeg2 = false := by
+  cases κ <;> simp_all [hasCons, Kind.isDeg2]
+
+theorem step_anc {fx : Fix} (s : State) (op : Op) (hfix : FixOK fx op) :
+    (step fx s op).1.ancilla = ancAfter fx s op := by
+  obtain ⟨hmul, hr⟩ := hfix
   cases op with
   | setitem k v =>
     simp only [step]; cases h : setitem fx s k v with
@@ -845,20 +1103,90 @@ theorem step_anc {fx : Fix} (s : State) (op : Op) (hmul : fx.d2 = true ∨ op.is
     split
     · rw [iaddLoop_anc]
     · rfl
+  | round nd =>
+    have hb : (fx.dr || !hasCons s.kind) = true := by
+      rcases hr with h | h
+      · simp [h]
+      · simp [Op.isRound] at h
+    simp only [step, hb]
+    exact rebuildSet_anc fx s _
+  | subs => exact rebuildSet_anc fx s _
+  | cast κ =>
+    simp only [step, cast, ancAfter]
+    have h1 := iaddLoop_anc fx (init κ) s.terms
+    cases hc : iaddLoop fx (init κ) s.terms with
+    | mk t e =>
+      rw [hc] at h1
+      cases e with
+      | none =>
+        simp only
+        split
+        · rfl
+        · exact h1
+      | some e => rfl
+  | bin a =>
+    exact copyThen_anc s (fun c => stepA_anc c a (by
+      rcases hmul with h | h
+      · exact Or.inl h
+      · exact Or.inr (by simpa [Op.isDictMul] using h)))
+  | rsubC c =>
+    simp only [step]
+    have h1 : (copyThen fx s (fun d => stepA fx d (.mulC (-1)))).1.ancilla = s.ancilla :=
+      copyThen_anc s (fun c => stepA_anc c _ (Or.inr rfl))
+    cases hc : copyThen fx s (fun d => stepA fx d (.mulC (-1))) with
+    | mk m e =>
+      rw [hc] at h1
+      cases e with
+      | none =>
+        simp only
+        exact (copyThen_anc m (fun c => stepA_anc c _ (Or.inr rfl))).trans h1
+      | some e => exact h1
+  | updateM κg q cs a =>
+    simp only [step, updateM, ancAfter]
+    have h1 := loop_anc (f := fun st kv => setitem fx st kv.1 kv.2) (fun _ _ _ h => setitem_anc h) q s
+    cases hc : loop (fun st kv => setitem fx st kv.1 kv.2) s q with
+    | mk t e =>
+      rw [hc] at h1
+      cases e with
+      | none =>
+        have h1' : t.ancilla = s.ancilla := h1
+        simp only
+        split
+        · rw [h1']
+        · exact h1
+      | some e =>
+        simp only
+        split
+        · rename_i hcond
+          have hk : hasCons s.kind = true := by
+            simp only [Bool.and_eq_true] at hcond; exact hcond.1
+          have := loop_setitem_total (fx := fx) q s (hasCons_not_deg2 hk)
+          rw [hc] at this
+          cases this
+        · exact h1
+  | remap =>
+    simp only [step]
+    split <;> rfl
 
-/-- what an edit must satisfy for I4: user keys carry no label of the ancilla form beyond the counter,
-constraints are `ConsFresh` -/
-def OpAnc (s : State) : Op → Prop
+/-- what an edit must satisfy for I4: user keys carry no label of the ancilla form beyond the counter, constraints
+are `ConsFresh`, a constructor is that of the model's own class, and `update(G)` either gets a model of the own class
+whose ancilla labels are below *its* counter (1495eb6 then raises the counter) or a dict with user keys -/
+def OpAnc (fx : Fix) (s : State) : Op → Prop
   | .cons r P lam lt lo hi => hasCons s.kind = true → ConsFresh s.kind s.ancilla r P lam lt (lo, hi)
-  | op => OpOK (KOK s.ancilla) s op
+  | .cast κ => κ = s.kind
+  | .updateM κg q _ a =>
+    if hasCons s.kind && κg == s.kind then fx.d10 = true ∧ ∀ kv ∈ q, KOK a kv.1
+    else ∀ kv ∈ q, KOK s.ancilla kv.1
+  | op => OpOK (KOK s.ancilla) (fun _ => True) s op
 
-/-- **I4 is kept by every edit** except, in the code as it is, by `*=` dict / `**=` -/
-theorem step_I4 {fx : Fix} (s : State) (op : Op) (hmul : fx.d2 = true ∨ op.isDictMul = false)
-    (hop : OpAnc s op) (hs : I4 s) : I4 (step fx s op).1 := by
+/-- **I4 is kept by every edit** (before 8d2eba8 / 0d891c4 / 1495eb6: except by `*=` dict, `**=`, `round`,
+`update(model)`) -/
+theorem step_I4 {fx : Fix} (s : State) (op : Op) (hfix : FixOK fx op)
+    (hop : OpAnc fx s op) (hs : I4 s) : I4 (step fx s op).1 := by
   unfold I4
-  rw [step_anc s op hmul]
+  rw [step_anc s op hfix]
   cases op with
-  | clear => exact (closed_AncB fx 0).init s.kind
+  | clear => exact (closed_AncB fx 0).init s.kind trivial
   | cons r P lam lt lo hi =>
     simp only [ancAfter]
     by_cases hc : hasCons s.kind = true
@@ -868,6 +1196,24 @@ theorem step_I4 {fx : Fix} (s : State) (op : Op) (hmul : fx.d2 = true ∨ op.isD
     · rw [if_neg hc]
       simp only [step, if_neg hc]
       exact hs
+  | cast κ =>
+    have hκ : κ = s.kind := hop
+    have ha : ancAfter fx s (.cast κ) = s.ancilla := by
+      simp only [ancAfter, hκ, beq_self_eq_true, if_true]
+      cases (iaddLoop fx (init s.kind) s.terms).2 <;> rfl
+    rw [ha]
+    exact step_pres (closed_AncB fx _) (.cast κ) trivial hs
+  | updateM κg q cs a =>
+    simp only [ancAfter]
+    simp only [OpAnc] at hop
+    by_cases hc : (hasCons s.kind && κg == s.kind) = true
+    · rw [if_pos hc] at hop ⊢
+      obtain ⟨hd, hq⟩ := hop
+      rw [if_pos hd]
+      exact step_pres (closed_AncB fx _) (.updateM κg q cs a)
+        (fun kv hkv => KOK_mono (Nat.le_max_right _ _) (hq kv hkv)) (AncB_mono (Nat.le_max_left _ _) hs)
+    · rw [if_neg hc] at hop ⊢
+      exact step_pres (closed_AncB fx _) (.updateM κg q cs a) hop hs
   | setitem k v => exact step_pres (closed_AncB fx _) _ hop hs
   | augitem k a d => exact step_pres (closed_AncB fx _) _ hop hs
   | iaddD q => exact step_pres (closed_AncB fx _) _ hop hs
@@ -881,6 +1227,11 @@ theorem step_I4 {fx : Fix} (s : State) (op : Op) (hmul : fx.d2 = true ∨ op.isD
   | update q => exact step_pres (closed_AncB fx _) _ hop hs
   | refresh => exact step_pres (closed_AncB fx _) _ hop hs
   | copy => exact step_pres (closed_AncB fx _) _ hop hs
+  | round nd => exact step_pres (closed_AncB fx _) _ hop hs
+  | subs => exact step_pres (closed_AncB fx _) _ hop hs
+  | bin a => exact step_pres (closed_AncB fx _) _ hop hs
+  | rsubC c => exact step_pres (closed_AncB fx _) _ hop hs
+  | remap => exact step_pres (closed_AncB fx _) _ hop hs
 
 /-! ## I0: the terms are stored canonically (C05), for every history -/
 
@@ -904,7 +1255,9 @@ theorem setitem_terms {fx : Fix} {s s' : State} {k : Key} {v : Rat} (h : setitem
   · exact e
 
 theorem closed_I0 (fx : Fix) : Closed fx I0 (fun _ => True) where
-  init κ := wf_nil _
+  init κ _ := wf_nil _
+  kindOK _ _ := trivial
+  remap s h := h
   field s a c h := h
   set s k v s' h _ hset := by
     obtain ⟨k', hk, ht⟩ := setitem_terms hset
@@ -1038,7 +1391,7 @@ in the code as it is and with the repairs -/
 theorem copy_spec (fx : Fix) (s : State) (h0 : I0 s) :
     ∃ c, copy fx s = (c, none) ∧ c.kind = s.kind ∧ c.terms = s.terms ∧ Exact c ∧ I1 c ∧ I2 c ∧ I3 c ∧
       c.ancilla = s.ancilla ∧ c.constraints = s.constraints := by
-  have hi := (closed_QInv { fx with d1 := true } rfl).init s.kind
+  have hi := (closed_QInv { fx with d1 := true } rfl).init s.kind trivial
   have hex : Exact (init s.kind) := by
     refine ⟨fun i => by simp [init], by simp [init, trueDegree]⟩
   obtain ⟨t', hl, r1, r2, r3, r4, r5, r6⟩ :=
@@ -1065,7 +1418,7 @@ theorem refresh_spec (fx : Fix) (s : State) (h0 : I0 s) :
 /-- a key supplied by the user: no label of the reserved ancilla form -/
 def UserKey (k : Key) : Prop := ∀ i ∈ k, i < ANC
 
-/-- all keys the edit supplies are user keys -/
+/-- all keys the edit supplies are user keys (a constructor `T(H)` and `update(model)` are judged by `Op.UserAt`) -/
 def Op.User : Op → Prop
   | .setitem k _ => UserKey k
   | .augitem k _ _ => UserKey k
@@ -1074,7 +1427,19 @@ def Op.User : Op → Prop
   | .imulD q => ∀ kv ∈ q, UserKey kv.1
   | .update q => ∀ kv ∈ q, UserKey kv.1
   | .cons _ P _ _ _ _ => ∀ kv ∈ P, UserKey kv.1
+  | .bin a => ArithOK UserKey a
+  | .updateM _ q _ _ => ∀ kv ∈ q, UserKey kv.1
+  | .cast _ => False
   | _ => True
+
+/-- the edit is a user edit of a model of class `κ`: user keys; a constructor is `κ`'s own (`T(H)` with
+`T = type(H)`, a copy); the argument of `update` is either a model of the own constrained class whose ancilla
+labels are below its own counter `a` (a sound model), or has user keys only -/
+def Op.UserAt (κ : Kind) : Op → Prop
+  | .cast κ' => κ' = κ
+  | .updateM κg q _ a =>
+    if hasCons κ && κg == κ then ∀ kv ∈ q, KOK a kv.1 else ∀ kv ∈ q, UserKey kv.1
+  | op => op.User
 
 /-- the constraint edits are `ConsFresh` from every counter value -/
 def Op.Fresh : Op → Prop
@@ -1082,20 +1447,51 @@ def Op.Fresh : Op → Prop
   | _ => True
 
 instance (k : Key) : Decidable (UserKey k) := by unfold UserKey; infer_instance
+instance (a : Arith) : Decidable (ArithOK UserKey a) := by cases a <;> unfold ArithOK <;> infer_instance
 instance (op : Op) : Decidable op.User := by cases op <;> unfold Op.User <;> infer_instance
+instance (κ : Kind) (op : Op) : Decidable (op.UserAt κ) := by
+  cases op <;> unfold Op.UserAt <;> infer_instance
 
 theorem userKey_KOK {k : Key} (h : UserKey k) (a : Nat) : KOK a k :=
   fun i hi h1 => absurd (h i hi) (Nat.not_lt.mpr h1)
 
-theorem opAnc_of_user (s : State) (op : Op) (hu : op.User) (hf : op.Fresh) : OpAnc s op := by
+theorem userAt_of_user (κ : Kind) (op : Op) (h : op.User) : op.UserAt κ := by
+  cases op with
+  | cast κ' => exact h.elim
+  | updateM κg q cs a =>
+    simp only [Op.UserAt]
+    split
+    · exact fun kv hkv => userKey_KOK (h kv hkv) a
+    · exact h
+  | _ => exact h
+
+theorem opAnc_of_user {fx : Fix} (hd : fx.d10 = true) (s : State) (op : Op) (hu : op.UserAt s.kind)
+    (hf : op.Fresh) : OpAnc fx s op := by
   cases op with
   | cons r P lam lt lo hi => exact fun _ => hf s.kind s.ancilla
+  | cast κ => exact hu
+  | updateM κg q cs a =>
+    simp only [Op.UserAt] at hu
+    simp only [OpAnc]
+    split
+    · rename_i hc; rw [if_pos hc] at hu; exact ⟨hd, hu⟩
+    · rename_i hc; rw [if_neg hc] at hu; exact fun kv hkv => userKey_KOK (hu kv hkv) _
   | setitem k v => exact userKey_KOK hu _
   | augitem k a d => exact userKey_KOK hu _
   | iaddD q => exact fun kv h => userKey_KOK (hu kv h) _
   | isubD q => exact fun kv h => userKey_KOK (hu kv h) _
   | imulD q => exact fun kv h => userKey_KOK (hu kv h) _
   | update q => exact fun kv h => userKey_KOK (hu kv h) _
+  | bin a =>
+    cases a with
+    | addD q => exact fun kv h => userKey_KOK (hu kv h) _
+    | subD q => exact fun kv h => userKey_KOK (hu kv h) _
+    | mulD q => exact fun kv h => userKey_KOK (hu kv h) _
+    | addC c => trivial
+    | subC c => trivial
+    | mulC c => trivial
+    | divC c => trivial
+    | pow e => trivial
   | iaddC c => trivial
   | isubC c => trivial
   | imulC c => trivial
@@ -1104,22 +1500,47 @@ theorem opAnc_of_user (s : State) (op : Op) (hu : op.User) (hf : op.Fresh) : OpA
   | clear => trivial
   | refresh => trivial
   | copy => trivial
+  | round nd => trivial
+  | subs => trivial
+  | rsubC c => trivial
+  | remap => trivial
 
-theorem run_I4 {fx : Fix} (κ : Kind) (ops : List Op)
-    (hmul : ∀ op ∈ ops, fx.d2 = true ∨ op.isDictMul = false)
-    (hu : ∀ op ∈ ops, op.User) (hf : ∀ op ∈ ops, op.Fresh) : I4 (run fx κ ops) := by
+/-- the class of the model never changes along user edits (a constructor of the own class is a copy) -/
+theorem closed_kind (fx : Fix) (κ : Kind) : Closed fx (fun s => s.kind = κ) (fun _ => True) (fun κ' => κ' = κ) where
+  init κ' h := h
+  kindOK s h := h
+  remap s h := h
+  field s a c h := h
+  set s k v s' h _ hset := (setitem_kind hset).trans h
+  terms _ _ _ _ := trivial
+  nil := trivial
+  app _ _ _ _ := trivial
+
+theorem opOK_kind (κ : Kind) (s : State) (op : Op) (hu : op.UserAt κ) :
+    OpOK (fun _ => True) (fun κ' => κ' = κ) s op := by
+  cases op with
+  | cast κ' => exact hu
+  | bin a => cases a <;> simp [OpOK, ArithOK]
+  | _ => simp [OpOK]
+
+theorem run_I4 {fx : Fix} (κ : Kind) (ops : List Op) (hfix : ∀ op ∈ ops, FixOK fx op) (hd : fx.d10 = true)
+    (hu : ∀ op ∈ ops, op.UserAt κ) (hf : ∀ op ∈ ops, op.Fresh) :
+    (run fx κ ops).kind = κ ∧ I4 (run fx κ ops) := by
   unfold run
-  suffices h : ∀ s, I4 s → I4 (ops.foldl (fun s o => (step fx s o).1) s) from
-    h _ ((closed_AncB fx 0).init κ)
+  suffices h : ∀ s, s.kind = κ → I4 s →
+      (ops.foldl (fun s o => (step fx s o).1) s).kind = κ ∧ I4 (ops.foldl (fun s o => (step fx s o).1) s) from
+    h _ rfl ((closed_AncB fx 0).init κ trivial)
   induction ops with
-  | nil => exact fun s h => h
+  | nil => exact fun s hk h => ⟨hk, h⟩
   | cons o r ih =>
-    intro s hs
+    intro s hk hs
     simp only [List.foldl_cons]
-    exact ih (fun op h => hmul op (List.mem_cons_of_mem _ h)) (fun op h => hu op (List.mem_cons_of_mem _ h))
+    have huo := hu o List.mem_cons_self
+    exact ih (fun op h => hfix op (List.mem_cons_of_mem _ h)) (fun op h => hu op (List.mem_cons_of_mem _ h))
       (fun op h => hf op (List.mem_cons_of_mem _ h)) _
-      (step_I4 s o (hmul o List.mem_cons_self)
-        (opAnc_of_user s o (hu o List.mem_cons_self) (hf o List.mem_cons_self)) hs)
+      (step_pres (closed_kind fx κ) o (opOK_kind κ s o huo) hk)
+      (step_I4 s o (hfix o List.mem_cons_self)
+        (opAnc_of_user hd s o (hk ▸ huo) (hf o List.mem_cons_self)) hs)
 
 /-! ## T14.3: labels of the enumerated and reduced forms -/
 
